@@ -3,12 +3,16 @@
 //	P p_total_<entry> <input>   run the real entry point(s) on the bytes in the watchdogged
 //	                            worker: ok unless it panics, hangs (5 s), is killed by the
 //	                            1 GiB address-space ceiling, or allocates far beyond the input
-//	C mc|me|fsp <bytes>         the newly modelled parsers (class + decoded fields)
+//	P p_seed_ok <kind> <input>  is the unmodified seed accepted by its own entry point (ok / skip)
+//	C mc|me|fsp|sacm|sacmsize <bytes>  the parsers modelled in Model/Misc.v (class + decoded fields)
 //	C cls_<parser> <bytes>      class ok/err of the parsers modelled for other properties
 //
-// Inputs: valid seeds per format (seeds.go, manifest.go), every recorded length / count /
-// offset / size field of a seed replaced by each boundary value (input.go), random flips,
-// truncations and extensions, and every seed fed to the entry points of the other formats.
+// Inputs: valid seeds per format (seeds.go, manifest.go); every recorded length / count /
+// offset / size field of a seed replaced by the core boundary values and the truncation aliases
+// (every field, every value) and by a sampled larger boundary set (input.go); neighbouring
+// fields changed together; truncations inside and behind every field; the seed with slack
+// behind it; random flips, truncations and extensions; every seed fed to the entry points of
+// the other formats; systematic families built as "bare" seeds.
 package main
 
 import (
@@ -80,30 +84,45 @@ func cops(kind string) []string {
 		return []string{"me"}
 	case "fsp":
 		return []string{"fsp"}
+	case "fit_sacm":
+		return []string{"sacm", "sacmsize"}
 	case "zlib":
 		return []string{"cls_zlib_frame"}
 	}
 	return nil
 }
 
-const modelMax = 6000 // bytes: larger inputs are not given to the list-based models
+const modelMax = 8000 // bytes: larger inputs are not given to the list-based models
 
 func gen(r *Rng, tier string, emit Emit) {
 	thorough := tier == "thorough"
 	rounds := 1
-	subst := 150 // boundary substitutions per seed (all of them when the seed has fewer)
-	muts := 24   // random mutants per seed
+	subst := 70   // sampled boundary substitutions per seed (the core values are not sampled: every field gets them)
+	muts := 20    // random mutants per seed
 	bigCases := 5 // cases on the real 16 MiB / 256 KiB artifacts
+	pairs := 50   // sampled two-field substitutions per seed (the core pairs are not sampled)
+	cuts := 30    // truncations inside / at the end of recorded fields per seed
 	if thorough {
-		rounds, subst, muts, bigCases = 5, 500, 120, 40
+		rounds, subst, muts, bigCases, pairs, cuts = 5, 500, 120, 40, 600, 400
 	}
 
+	nrun := 0
 	run := func(s seed, b []byte, withModel bool) {
 		in := encodeInput(s, b)
 		if typeOf(s.name) != nil && !strings.HasSuffix(s.name, "_Manifest") {
 			emit("P", "p_total_manifest", s.name, in) // a sub-structure's own ReadFrom
 		} else {
-			for _, t := range targets(s.name) {
+			for k, t := range targets(s.name) {
+				if k > 0 && s.light && s.name == "lzmax86" {
+					break // the additional LZMAX86 payloads run through their own entry point only
+				}
+				if k > 0 && s.name == "cbfs" {
+					// a CBFS image through fmap.Read as well: every fourth case (most CBFS fields
+					// lie inside the archive, which the flash map reader does not look at)
+					if nrun++; nrun%4 != 0 {
+						continue
+					}
+				}
 				emit("P", "p_total_"+t, in)
 			}
 		}
@@ -138,7 +157,11 @@ func gen(r *Rng, tier string, emit Emit) {
 			if round > 0 && !strings.HasSuffix(e.name, "_Manifest") && !rr.Chance(1, 3) {
 				continue
 			}
-			add(manifestSeed(rr.Fork(uint64(20+i)), e.name))
+			ms, ok := manifestSeed(rr.Fork(uint64(20+i)), e.name)
+			// the stand-alone sub-structures are also part of the four manifests, whose seeds get the
+			// full budgets (and the generated readers are tied to the model by the translator)
+			ms.light = !strings.HasSuffix(e.name, "_Manifest") && !thorough
+			add(ms, ok)
 		}
 		add(seedAmdImage(rr.Fork(60)), true)
 		add(seedAmdTable(rr.Fork(61), false), true)
@@ -172,12 +195,50 @@ func gen(r *Rng, tier string, emit Emit) {
 		add(seedME(rr.Fork(72), false, rr.Pick(0, 1, 4)), true)
 		add(seedME(rr.Fork(73), true, rr.Pick(0, 2, 5)), true)
 		for _, rev := range []int{3, 4, 5, 6, 7} {
-			add(seedFSP(rr.Fork(uint64(74+rev)), rev), true)
+			fs := seedFSP(rr.Fork(uint64(74+rev)), rev)
+			fs.light = (rev == 4 || rev == 5 || rev == 7) && !thorough // 3 and 6 carry the full budgets
+			add(fs, true)
 		}
 		for i, c := range []string{"lzma", "lzmax86", "lz4", "zlib"} {
 			add(seedCompressed(rr.Fork(uint64(90+i)), c))
 		}
 		add(seed{name: "brotli", b: rr.Bytes(rr.Pick(0, 1, 15, 16, 17, 40))}, true)
+		// further shapes of formats that already have a main seed (appended, so that the main
+		// seeds keep their random streams): token keys larger / smaller than their signer and with
+		// a short exponent field, APCB binaries without / with foreign / with empty token groups,
+		// LZMAX86 payloads with branch opcodes in the last positions
+		light := func(s seed, ok bool) {
+			s.light = true
+			if s.name == "lzmax86" {
+				s.b = smallDict(s.b)
+			}
+			add(s, ok)
+		}
+		for i, c := range [][3]int{{32, 2048, 256}, {32, 4096, 512}, {32, 8192, 512}, {0, 8192, 512}, {2048, 1024, 128}, {4096, 4096, 512}, {8192, 8192, 1024}} {
+			if (round == 0 && (i < 5 || thorough)) || (round > 0 && rr.Chance(1, 2)) {
+				light(seedTokenKeySized(rr.Fork(uint64(100+i)), c[0], c[1], c[2]), true)
+			}
+		}
+		// PSP binaries: the compressed and the uncompressed layout take different branches of
+		// getSignedBlob; the main seed picks one of them at random, these two fix one each
+		for i, comp := range []bool{false, true} {
+			pb2 := pspBinary(rr.Fork(uint64(130+i)), rootKeyID(), rr.Pick(0x10, 0x120, 0x400), 512, comp)
+			light(pb2.seed("psb_binary"), true)
+		}
+		for shape := 1; shape <= 5; shape++ {
+			light(seedApcbShaped(rr.Fork(uint64(110+shape)), shape), true)
+		}
+		for i := 0; i < 2 || (thorough && i < 4); i++ {
+			light(seedCompressed(rr.Fork(uint64(120+i)), "lzmax86"))
+		}
+		if round == 0 {
+			for _, t := range lzmax86Tails() {
+				add(t, true)
+			}
+			for _, t := range zlibFrames(rr.Fork(140)) {
+				add(t, true)
+			}
+		}
 
 		for si, s := range seeds {
 			sr := rr.Fork(uint64(5000 + si))
@@ -185,7 +246,54 @@ func gen(r *Rng, tier string, emit Emit) {
 			if s.sparse {
 				budgetS, budgetM = subst/2, muts/3
 			}
+			if s.light {
+				budgetS, budgetM = subst/4, muts/3
+			}
+			if s.bare {
+				if s.name != "zlib" { // the ZLIB frames are headers without a stream: not seeds
+					emit("P", "p_seed_ok", s.name, encodeInput(s, s.b))
+				}
+				emit("P", "p_total_"+s.name, encodeInput(s, s.b))
+				emit("P", "p_total_"+s.name, H(append(append([]byte{}, s.b...), 0)))
+				for _, c := range cops(s.name) {
+					emit("C", c, H(s.b))
+				}
+				continue
+			}
+			if s.name != "brotli" {
+				emit("P", "p_seed_ok", s.name, encodeInput(s, s.b))
+			}
 			run(s, s.b, true)
+			// the seed with slack behind it (zero, erased, random): where a structure ends and where
+			// its buffer ends are two different things for every bound check
+			if !s.sparse {
+				for k, n := range []int{1, 16, 64} {
+					t := make([]byte, n)
+					switch k {
+					case 1:
+						for i := range t {
+							t[i] = 0xff
+						}
+					case 2:
+						t = sr.Bytes(n)
+					}
+					run(s, append(append([]byte{}, s.b...), t...), k == 0)
+				}
+			}
+			// the core boundary values: every recorded field, every value
+			ck := 0
+			for fi, f := range s.fields {
+				if f.off < 0 || f.off+f.w > len(s.b) {
+					continue
+				}
+				for vi, v := range coreValues(len(s.b), f, getField(s.b, f)) {
+					if s.sparse && !thorough && (fi+vi)%2 == 1 {
+						continue // the large images: every other value per field in the quick tier
+					}
+					run(s, substitute(s.b, f, v), ck%4 == 0 || thorough)
+					ck++
+				}
+			}
 			// boundary-value substitution of every recorded field
 			type sub struct {
 				f fld
@@ -218,8 +326,79 @@ func gen(r *Rng, tier string, emit Emit) {
 				subs = subs[:len(subs)-1]
 				run(s, substitute(s.b, x.f, x.v), k%3 == 0 || thorough)
 			}
+			// two fields at once (neighbours in the field map, both orders, and next-but-one)
+			var ps []pairSub
+			for i := range s.fields {
+				for _, j := range []int{i + 1, i + 2} {
+					if j >= len(s.fields) {
+						continue
+					}
+					f, g := s.fields[i], s.fields[j]
+					if f.off < 0 || f.off+f.w > len(s.b) || g.off < 0 || g.off+g.w > len(s.b) {
+						continue
+					}
+					ps = append(ps, pairValues(f, g, getField(s.b, f), getField(s.b, g))...)
+					if j == i+1 {
+						ps = append(ps, pairValues(g, f, getField(s.b, g), getField(s.b, f))...)
+					}
+				}
+			}
+			// ... of which "both zero" and "both raised by the same large amount" are not sampled
+			if !s.sparse && !s.light {
+				for i := range s.fields {
+					for _, j := range []int{i + 1, i + 2} {
+						if j >= len(s.fields) {
+							continue
+						}
+						f, g := s.fields[i], s.fields[j]
+						if f.off < 0 || f.off+f.w > len(s.b) || g.off < 0 || g.off+g.w > len(s.b) {
+							continue
+						}
+						for k, x := range corePairs(f, g, getField(s.b, f), getField(s.b, g)) {
+							run(s, substitute2(s.b, x), (i+k)%4 == 0 || thorough)
+						}
+					}
+				}
+			}
+			pr := sr.Fork(7)
+			budgetP := pairs
+			if s.sparse || s.light {
+				budgetP = pairs / 3
+			}
+			for k := 0; k < budgetP && len(ps) > 0; k++ {
+				i := pr.Intn(len(ps))
+				x := ps[i]
+				ps[i] = ps[len(ps)-1]
+				ps = ps[:len(ps)-1]
+				run(s, substitute2(s.b, x), k%3 == 0 || thorough)
+			}
+			// truncations inside and right behind every recorded field
+			if !s.sparse {
+				var cs []int
+				seenCut := map[int]bool{}
+				for _, f := range s.fields {
+					for n := f.off; n <= f.off+f.w+1; n++ {
+						if n >= 0 && n < len(s.b) && !seenCut[n] {
+							seenCut[n] = true
+							cs = append(cs, n)
+						}
+					}
+				}
+				cr := sr.Fork(8)
+				budgetC := cuts
+				if s.light {
+					budgetC = cuts / 3
+				}
+				for k := 0; k < budgetC && len(cs) > 0; k++ {
+					i := cr.Intn(len(cs))
+					n := cs[i]
+					cs[i] = cs[len(cs)-1]
+					cs = cs[:len(cs)-1]
+					run(s, s.b[:n], k%2 == 0 || thorough)
+				}
+			}
 			// truncations at every interesting length
-			for _, n := range []int{0, 1, 3, 4, 11, 12, 15, 16, 23, 24, 47, 48, 63, 64, 79, 80, len(s.b) - 1, len(s.b) / 2} {
+			for _, n := range []int{0, 1, 3, 4, 11, 12, 15, 16, 23, 24, 25, 27, 28, 31, 32, 47, 48, 63, 64, 79, 80, 127, 128, 255, 256, 257, len(s.b) - 4, len(s.b) - 2, len(s.b) - 1, len(s.b) / 2} {
 				if n >= 0 && n < len(s.b) && !s.sparse && sr.Chance(1, 2) {
 					run(s, s.b[:n], true)
 				}
@@ -253,7 +432,7 @@ func gen(r *Rng, tier string, emit Emit) {
 	sortStrings(names)
 	cr := r.Fork(77)
 	for _, s := range all {
-		if s.sparse || len(s.b) > 4096 {
+		if s.sparse || s.bare || s.light || len(s.b) > 4096 {
 			continue
 		}
 		for _, n := range names {
@@ -263,7 +442,7 @@ func gen(r *Rng, tier string, emit Emit) {
 		}
 	}
 	for _, n := range names {
-		for _, l := range []int{0, 1, 2, 4, 8, 15, 16, 17, 64, 255, 256, 257} {
+		for _, l := range []int{0, 1, 2, 4, 8, 15, 16, 17, 25, 27, 28, 31, 64, 255, 256, 257} {
 			emit("P", "p_total_"+n, H(cr.Bytes(l)))
 			emit("P", "p_total_"+n, H(make([]byte, l)))
 		}
